@@ -61,7 +61,7 @@ pub fn text_space(r: &mut Run, name: &str, alpha: &[Sym], n: usize, gamma: &Gamm
         name: name.to_string(),
         menu: menu(alpha),
         max_len: n,
-        desc: format!("texts over the menu, length <= {}; configurations: {}; widths: 0..=({}+widest indent+2), usize::MAX-1, usize::MAX; CRLF configurations only for texts containing a line break and of length <= {}", n, gamma.describe(), if mode == WidthMode::Bytes { "byte length" } else { "display width" }, crlf_max_len),
+        desc: format!("texts over the menu, length <= {}; configurations: {}; widths: 0..=({}+widest indent+2), usize::MAX-1, usize::MAX; CRLF configurations only for texts containing a line break and of length <= {} (each such text both with CRLF breaks and with bare LFs)", n, gamma.describe(), if mode == WidthMode::Bytes { "byte length" } else { "display width" }, crlf_max_len),
     };
     r.space(space, |seq, cx| {
         let text_lf = build(seq, alpha);
@@ -77,6 +77,11 @@ pub fn text_space(r: &mut Run, name: &str, alpha: &[Sym], n: usize, gamma: &Gamm
             for w in widths(hi) {
                 let cfg = Cfg { width: w, ..*base };
                 check_wrap(text, &cfg, mask, cx);
+                if base.crlf && text_lf.contains('\n') {
+                    // the same text with *bare* LFs under the CRLF configuration: a bare LF is then an
+                    // ordinary character inside a paragraph, not a paragraph break
+                    check_wrap(&text_lf, &cfg, mask, cx);
+                }
             }
         }
     })
@@ -142,15 +147,15 @@ pub fn char_context_space(r: &mut Run, name: &str, mask: u32, algs: Vec<Alg>) ->
     })
 }
 
-/// Wrap-level oracles on the escape grammar's byte ranges: for every byte b in 0x20..=0x7F the
+/// Wrap-level oracles on the escape grammar's byte ranges: for every byte b in 0x21..=0x7F the
 /// texts "ESC [ 1 b X12 345" (b in '@'..='~' ends the CSI, otherwise X does) and
 /// "ESC ] 8 b X BEL 12 345".  Text alphabets only carry sequences ending in 'm'.
 pub fn escape_scan_space(r: &mut Run, name: &str, mask: u32, algs: Vec<Alg>) -> Result<(), MachineryError> {
     let g = Gamma { seps: seps(), algs, spls: vec![Spl::None, Spl::Hyphen], bws: vec![true, false], indents: vec![("", ""), (">", "")], crlf: vec![false] };
     let bases = g.bases();
-    r.range(name, &format!("for every byte b in 0x20..=0x7F the texts \"ESC[1bX12 345\" and \"ESC]8bX BEL 12 345\" (well-formed by the grammar of C10 whatever b is); {}; widths 0..=8, MAX", g.describe()), 96 * 2, move |i, cx| {
-        let b = (0x20 + (i % 96)) as u8 as char;
-        let text = if i / 96 == 0 { format!("\x1b[1{b}X12 345") } else { format!("\x1b]8{b}X\x0712 345") };
+    r.range(name, &format!("for every byte b in 0x21..=0x7F the texts \"ESC[1bX12 345\" and \"ESC]8bX BEL 12 345\" (well-formed by the grammar of C10 whatever b is; b = space is left to C10: the ASCII separator is specified (C11) to split at every space, also inside a sequence); {}; widths 0..=8, MAX", g.describe()), 95 * 2, move |i, cx| {
+        let b = (0x21 + (i % 95)) as u8 as char;
+        let text = if i / 95 == 0 { format!("\x1b[1{b}X12 345") } else { format!("\x1b]8{b}X\x0712 345") };
         cx.seq = idx_seq(i);
         cx.set_input(&text);
         for base in &bases {
